@@ -57,6 +57,17 @@ def check_path(ex, w, handler, result, log, pre, msg_info):
     # ---- C03 (b): (view, phase) never decreases
     need('C03', f'{handler}:view-phase-decreases', 'the (view, phase) of the replica went backwards',
          z3.Or(zb(num_cmp('Gt', qv, pv)), z3.And(zb(num_cmp('Eq', qv, pv)), z3.BoolVal(RANK[qph] >= RANK[pph]))))
+    # ---- C03 (c'): at the END of a step in which something left the node, the durable state records the final in-memory
+    # (view, phase, high vote, certificates): a vote or phase change made after the last backup would be lost by a crash
+    sent_any = any(ev[0] == 'send' for ev in log)
+    lp = None
+    for ev in log:
+        if ev[0] == 'persist': lp = ev[1]
+        elif ev[0] == 'persist_failed': lp = None
+    if sent_any and lp is not None and handler != 'start_new_view':
+        same_end = b_and(num_cmp('Eq', lp['view'], post['view']), lp['phase'] == post['phase'], values_equal(ex, lp['high_vote'], post['high_vote']),
+                         values_equal(ex, lp['cqc'], post['cqc']), values_equal(ex, lp['tqc'], post['tqc']))
+        need('C03', f'{handler}:stale-backup:final-state', 'messages left the node but the state made durable last differs from the in-memory state at the end of the step (a view / phase / vote change after the backup would be lost by a crash)', zb(same_end))
     # ---- effect log
     last_persist = None
     for i, ev in enumerate(log):
